@@ -373,7 +373,7 @@ class Ctx:
         return 'violation'
 
     def write_evidence(self):
-        n_obl = len(self.records)
+        n_obl = sum(1 for r in self.records if r['status'] != 'note')
         held = sum(1 for r in self.records if r['status'] == 'held')
         cov = {
             'obligations': n_obl, 'discharged': held,
@@ -414,7 +414,7 @@ class Ctx:
             log('  what: %s (%s)' % (text, key))
         held = sum(1 for r in self.records if r['status'] == 'held')
         log('%s %s: %d/%d obligations held, %d known, %d violations, %d inconclusive, %.0fs' %
-            (self.pid, self.tier, held, len(self.records), len(self.known), len(self.violations), len(self.inconclusive), time.time() - self.t0))
+            (self.pid, self.tier, held, sum(1 for r in self.records if r['status'] != 'note'), len(self.known), len(self.violations), len(self.inconclusive), time.time() - self.t0))
         if self.violations:
             return 1
         if self.inconclusive:
